@@ -8,6 +8,7 @@ import (
 	"os"
 	"path/filepath"
 	"reflect"
+	"runtime"
 	"sort"
 	"strings"
 	"testing"
@@ -324,6 +325,7 @@ func tail(s []string, n int) []string {
 
 func TestVerifC16(t *testing.T) {
 	quiet()
+	runtime.GOMAXPROCS(1) // the cooperative scheduler runs one goroutine at a time: hand-offs stay on one P
 	if p := os.Getenv("VERIF_REPLAY"); p != "" {
 		replayOr("C16", c16Replay)
 		return
